@@ -44,6 +44,8 @@
 #include <locale>
 #include <sstream>
 #include <stdexcept>
+#include <streambuf>
+#include <istream>
 #include <string>
 #include <typeinfo>
 #include <vector>
@@ -188,6 +190,19 @@ std::vector<T> int_lattice()
 }
 
 // ------------------------------------------------------------------ binary io
+// delivers the first `good` bytes, then throws from underflow (an input device error: istream turns it into badbit,
+// without eofbit)
+struct throwing_buf : std::streambuf
+{
+  std::string data;
+  std::size_t good;
+  throwing_buf(std::string d, std::size_t g) : data(std::move(d)), good(g)
+  {
+    setg(data.data(), data.data(), data.data() + std::min(good, data.size()));
+  }
+  int_type underflow() override { throw std::runtime_error("device error"); }
+};
+
 template <class T>
 void rw_one(T v, std::string const &e)
 {
@@ -226,12 +241,32 @@ void rw_one(T v, std::string const &e)
       if (std::memcmp(&x, &v, sizeof(T)) != 0)
         vf::violation(e + "/read/value/" + ename, "mismatch", "bits " + std::to_string(static_cast<std::uint64_t>(u)));
     }
-    // reading from a stream that is one byte short must yield nothing, never a value
-    if (sizeof(T) > 1)
+    // reading from a stream that is short by any number of bytes must yield nothing, never a value
+    for (std::size_t have = 0; have < sizeof(T); ++have)
     {
-      std::istringstream is2(b.substr(0, sizeof(T) - 1));
+      std::istringstream is2(b.substr(0, have));
       if (fcppt::io::read<T>(is2, en).has_value())
         vf::violation(e + "/read/short-stream", "mismatch", "value from a truncated stream");
+    }
+    // a stream that cannot deliver (failed before the call, or the device fails inside the call) yields nothing as
+    // well - in these states eofbit is NOT set
+    {
+      std::istringstream f1(b);
+      f1.setstate(std::ios_base::failbit);
+      if (fcppt::io::read<T>(f1, en).has_value())
+        vf::violation(e + "/read/value-from-failed-stream", "mismatch", "failbit was set before the call");
+      std::istringstream f2(b);
+      f2.setstate(std::ios_base::badbit);
+      if (fcppt::io::read<T>(f2, en).has_value())
+        vf::violation(e + "/read/value-from-failed-stream", "mismatch", "badbit was set before the call");
+      for (std::size_t good = 0; good < sizeof(T); ++good)
+      {
+        throwing_buf tb(b, good);
+        std::istream f3(&tb);
+        if (fcppt::io::read<T>(f3, en).has_value())
+          vf::violation(e + "/read/value-from-failing-device", "mismatch", "the device failed after " + std::to_string(good) + " bytes");
+      }
+      VF_COUNT("io/read-from-failed-stream");
     }
     T c1 = fcppt::endianness::convert(fcppt::endianness::convert(v, en), en);
     if (std::memcmp(&c1, &v, sizeof(T)) != 0)
@@ -787,7 +822,7 @@ void io_string_wrappers()
 
 void body()
 {
-  for (char const *b : {"io/write-read", "text/roundtrips", "text/char-types", "text/malformed", "enum/roundtrips", "enum/non-names",
+  for (char const *b : {"io/write-read", "io/read-from-failed-stream", "text/roundtrips", "text/char-types", "text/malformed", "enum/roundtrips", "enum/non-names",
                         "vector/roundtrips", "vector/malformed", "utf8/strings", "utf8/scalars-singly", "utf8/narrow-growth/x4",
                         "utf8/narrow-growth/x2-3", "utf8/narrow-growth/lt-x2", "utf8/incomplete-input", "utf8/invalid-input",
                         "utf8/env-locale-strings", "io-string/roundtrips"})
